@@ -271,6 +271,7 @@ func (s *Service) savePipes() {
 		ss = append(ss, pp.getConfig())
 	}
 	s.lock.Unlock()
+	verifhook.At("pipe.save.afterSnapshot")
 	if err := s.psr.savePipes(ss); err != nil {
 		s.logger.Error("Could not save infromation about ", len(ss), " streams, err=", err)
 	}
